@@ -103,6 +103,56 @@ def run(ctx, idx):
                         if isinstance(n_, ast.Assign) and any(isinstance(tg, ast.Name) and tg.id == nm for tg in n_.targets) and isinstance(n_.value, ast.Call):
                             if any(k.arg == "dtype" for k in n_.value.keywords) or (isinstance(n_.value.func, ast.Attribute) and n_.value.func.attr == "astype"):
                                 conv.append((nm, c, n_))
+                if conv:
+                    # a sign test on converted values is sound where the conversion keeps the sign: under a test that admits
+                    # only Positive Float (element type float).  Each raise is read with the tests that dominate it.
+                    def holds_at(t, x):
+                        """x is reached only through the true edge of test t"""
+                        seen, work = set(), [cfg.entry]
+                        while work:
+                            n_ = work.pop()
+                            if n_ in seen:
+                                continue
+                            seen.add(n_)
+                            for m_, lab in n_.succ:
+                                if n_ is t and lab == "true":
+                                    continue
+                                work.append(m_)
+                        return x not in seen
+
+                    def admitted(x):
+                        adm = None
+                        for t in tests:
+                            if not cfg.dominates(t, x) or not holds_at(t, x):
+                                continue
+                            for c in ast.walk(K.expand(fi, t.ast)):
+                                if isinstance(c, ast.Compare) and len(c.ops) == 1 and isinstance(c.ops[0], (ast.Eq, ast.In)):
+                                    try:
+                                        v = idx.const(fi.module, c.comparators[0], fi)
+                                    except Exception:
+                                        continue
+                                    vs = {v} if isinstance(v, str) else set(v) if isinstance(v, (tuple, list, set, frozenset)) else set()
+                                    if vs & set(names):
+                                        adm = (vs & set(names)) if adm is None else adm & vs
+                        return adm
+                    covered = set()
+                    still = []
+                    for x in rz:
+                        adm = admitted(x)
+                        mine = [cv for cv in conv if any(cfg.dominates(t, x) and any(cv[1] is y for y in ast.walk(t.ast)) for t in tests)]
+                        if mine and adm is not None and adm <= {"Positive Float"}:
+                            covered |= adm
+                        elif mine:
+                            still.extend(mine)
+                        elif adm is not None:
+                            covered |= adm
+                    if not still and covered >= set(names):
+                        conv = []
+                    elif not still:
+                        ctx.violate("C18.a", "%s.execute::positive-check-on-file-values" % d.key, d.module.rel, rz[0].line, "no sign test is left for %s" % ", ".join(sorted(set(names) - covered)))
+                        conv = []
+                    else:
+                        conv = still
                 con2 = "%s.execute::positive-check-on-file-values" % d.key
                 if not recv:
                     raise AnalysisError("C18.a: the value tested by the positive-data check was not found")
@@ -260,8 +310,14 @@ def run(ctx, idx):
     stores = [(line, v, node) for line, v, node in r.ncstores if isinstance(v, Arr) and not v.filearr and (v.D & want or v.Pc & want)]
     if not stores:
         ctx.violate("C18.d", con, d.module.rel, fi.node.lineno, "no masked array is stored into an output variable")
+    cvs_ = [n for n in own_nodes(fi.node) if isinstance(n, ast.Call) and isinstance(n.func, ast.Attribute) and n.func.attr == "createVariable" and any(k.arg == "fill_value" for k in n.keywords)]
+    var_fills = {K.src(K.expand(fi, k.value)) for n in cvs_ for k in n.keywords if k.arg == "fill_value"}
     for line, v, node in stores:
         missm = want - v.M if v.kind == "masked" else want
+        if v.kind == "plain" and v.filledwith and v.filledwith[1] is not None and not (want - v.filledwith[0]) and len(cvs_) == 1 and var_fills == {v.filledwith[1]}:
+            # a plain array whose missing cells hold exactly the variable's _FillValue is the same file content as the masked
+            # array (netCDF4 writes the fill value for masked cells and masks cells equal to it on reading)
+            missm = frozenset()
         ctx.ob("C18.d", con, d.module.rel, line, not missm, "stored value's mask covers every written result (%s)" % R.tok_text(v.M) if not missm else
                "the mask written with each variable does not cover the missing cells of %s: a cell missing in one result is written as valid in the others" % R.tok_text(missm))
     R.leaves_inputs_alone(ctx, "C18.d", d, r, "the union of missing cells is accumulated inside the first result itself, so that result carries the other results' missing cells from then on and any later write of it stores cells as missing that never were")
